@@ -122,6 +122,10 @@ def run(shard, ctx):
                    # long blocks that cancel each other from the inside out (deeper than the interpreter's recursion limit here)
                    "C" + "#" * 3300 + "b" * 3300 + "###", "F" + "b" * 3100 + "#" * 3100, "D" + "#b" * 3200 + "b"):
             check_name(ctx, nm)
+        # names that are instances of a str subclass
+        for nm in ("C", "C#", "Bbb", "F##", "Ab", "E#b", "G" + "b" * 9):
+            check_name(ctx, T.SubStr(nm))
+            check_name(ctx, T.NamedStr(nm))
         # long names that agree in letter, first accidental and length and differ in what they add up to
         for L_ in "GC":
             for n_ in (33, 40, 64, 200):
